@@ -461,7 +461,12 @@ func protoRoundTrip(c *fw.Ctx, r *fw.Rand) {
 func checkProtoPin(c *fw.Ctx, where string, want, got *api.Pin) {
 	exp := *want
 	exp.UserAllocations = nil
-	exp.Mode = want.MaxDepth.ToPinMode()
+	// the harness's own rule (not the code's): depth 0 is a direct pin, every
+	// other depth (unlimited or bounded, as shard pins use) a recursive one
+	exp.Mode = api.PinModeRecursive
+	if want.MaxDepth == 0 {
+		exp.Mode = api.PinModeDirect
+	}
 	if !exp.ExpireAt.IsZero() {
 		exp.ExpireAt = time.Unix(exp.ExpireAt.Unix(), 0)
 	}
